@@ -181,38 +181,48 @@ Definition get_node_id (ch : chaser) (d : disk) (s : rs) (pid : nid) (name : byt
 
 Definition log_add (s : rs) (from to : bytes) : rs := mkRs (r_cache s) (r_log s ++ [(from, to)]).
 
-(* the while loop of ADFI_chase_link; [n] is structural fuel for Coq only (101 is always enough: loop_fuel_irrelevant),
+(* one turn of the while loop of ADFI_chase_link on the node [lk]:  Ok None = not a link (done = TRUE),
+   Ok (Some t) = the link was followed to t (which may be another link) *)
+Definition hop (ch : chaser) (d : disk) (e : env) (s : rs) (lk : nid) : rs * res (option nid) :=
+  match node_at d lk with
+  | None => (s, Err EOther)
+  | Some r =>
+      match adf_link_of r with
+      | None => (s, Ok None)
+      | Some (file, path) =>
+          let rootr :=
+            if nonempty file then
+              match find_file d e (fst lk) file 1 (ADF_FILENAME_LENGTH + 1) with
+              | FOk p => Ok (log_add s (fst lk) p, (p, root_uid))
+              | _ => Err ELinkFile                              (* LINKED_TO_FILE_NOT_THERE *)
+              end
+            else Ok (s, root_of lk) in
+          match rootr with
+          | Err x => (s, Err x)
+          | Ok (s0, root) =>
+              let '(s1, r1) := get_node_id ch d s0 root path in
+              match r1 with
+              | Err ENotFound => (s1, Err ELinkTarget)          (* "a better error message" *)
+              | Err x => (s1, Err x)
+              | Ok t => (s1, Ok (Some t))
+              end
+          end
+      end
+  end.
+
+(* the while loop; [n] is structural fuel for Coq only (101 is always enough: loop_fuel_irrelevant),
    [depth] is the C variable link_depth *)
 Fixpoint chase_loop (ch : chaser) (d : disk) (e : env) (n : nat) (depth : Z) (s : rs) (lk : nid) : cres :=
   match n with
   | O => (s, Err EStack)
   | S n' =>
-      match node_at d lk with
-      | None => (s, Err EOther)
-      | Some r =>
-          match adf_link_of r with
-          | None => (s, Ok lk)                                  (* not a link: done *)
-          | Some (file, path) =>
-              let rootr :=
-                if nonempty file then
-                  match find_file d e (fst lk) file 1 (ADF_FILENAME_LENGTH + 1) with
-                  | FOk p => Ok (log_add s (fst lk) p, (p, root_uid))
-                  | _ => Err ELinkFile                          (* LINKED_TO_FILE_NOT_THERE *)
-                  end
-                else Ok (s, root_of lk) in
-              match rootr with
-              | Err x => (s, Err x)
-              | Ok (s0, root) =>
-                  let '(s1, r1) := get_node_id ch d s0 root path in
-                  match r1 with
-                  | Err ENotFound => (s1, Err ELinkTarget)      (* "a better error message" *)
-                  | Err x => (s1, Err x)
-                  | Ok t =>
-                      if depth + 1 >? ADF_MAXIMUM_LINK_DEPTH then (s1, Err ETooDeep)
-                      else chase_loop ch d e n' (depth + 1) s1 t
-                  end
-              end
-          end
+      let '(s1, h) := hop ch d e s lk in
+      match h with
+      | Err x => (s1, Err x)
+      | Ok None => (s1, Ok lk)
+      | Ok (Some t) =>
+          if depth + 1 >? ADF_MAXIMUM_LINK_DEPTH then (s1, Err ETooDeep)      (* ++link_depth > limit *)
+          else chase_loop ch d e n' (depth + 1) s1 t
       end
   end.
 
@@ -368,7 +378,11 @@ Definition add_child_effect (caps : list (nid * Z)) (p : nid) (nkids : Z) : list
 Definition with_disk (s : ast) (d : disk) : ast := mkAst d (a_cache s) (a_slots s) (a_caps s) (a_chunks s) (a_env s).
 Definition clear_if (b : bool) (c : option (nid * nid)) : option (nid * nid) := if b then None else c.
 
+Definition file_open (s : ast) (f : bytes) : bool :=
+  match slot_find (a_slots s) f 0 with Some _ => true | None => false end.
+
 Definition adf_mutate (s : ast) (f : bytes) (o : op) : ast * result :=
+  if negb (file_open s f) then (s, RErr) else                  (* ADF_FILE_NOT_OPENED *)
   match disk_get (a_disk s) f with
   | None => (s, RErr)
   | Some df =>
@@ -450,9 +464,12 @@ Definition adf_close (fuel : nat) (s : ast) (f : bytes) : option (ast * result) 
 Definition commit (s : ast) (x : rs) : ast :=
   mkAst (a_disk s) (r_cache x) (slots_apply (a_slots s) (r_log x)) (a_caps s) (a_chunks s) (a_env s).
 
+(* an id is usable only while its file is open in the process (ADFI_ID_2_file_block_offset: ADF_FILE_NOT_OPENED) *)
 Definition adf_read (fuel : nat) (s : ast) (i : nid) (what : Z) : ast * ans :=
+  if negb (file_open s (fst i)) then (s, AErr EOther) else
   let '(x, a) := adf_get true fuel (a_disk s) (a_env s) (mkRs (a_cache s) []) i what in (commit s x, a).
 Definition adf_lookup (fuel : nat) (s : ast) (pid : nid) (name : bytes) : ast * res nid :=
+  if negb (file_open s (fst pid)) then (s, Err EOther) else
   let '(x, r) := lookup true fuel (a_disk s) (a_env s) (mkRs (a_cache s) []) pid name in (commit s x, r).
 Definition adf_setenv (s : ast) (e : env) : ast :=
   mkAst (a_disk s) (a_cache s) (a_slots s) (a_caps s) (a_chunks s) e.
